@@ -3453,6 +3453,11 @@ scobindSetSigUse(DeclInfo declInfo, DeclContext context, AbSyn use)
 			comsgNError(use, ALDOR_E_ScoDupDefine,
 				     symString(use->abId.sym));
 			comsgNote(declInfo->uses[context], ALDOR_N_Here);
+			/* In the loop the refused definition is rolled back:
+			 * keep the record of the definition that stays, or
+			 * the roll-back leaves the name without one. */
+			if (fintMode == FINT_LOOP)
+				return;
 		}
 		declInfo->defpos = listCons(DefnPos)(scoConditionToDefnPos(scoCondList),
 						     declInfo->defpos);
